@@ -23,6 +23,14 @@ Ties on the real mloda:
          the plan of an earlier prepared session must not change when its argument objects are passed to a later call.
          (The two former known findings C07-filter-collection-accumulates / C07-links-set-grows are fixed in /repo; their
          witnesses are run first as regression cases.)
+  B-dom  the same machinery on a universe WITH DOMAINS (gen_dom_case): two roots with the same columns in the domains sales /
+         finance, a pandas root in the default domain, a root whose group has a domain while its features are requested
+         without one, derived groups whose input features inherit the requested feature's domain / carry their own; ONE
+         GlobalFilter (filter features without / with own domain, compute framework, options) re-used by 3-6 calls whose
+         requested features belong to different domains and frameworks; 4-row tables with values on both sides of the filter
+         bound.  Everything planning could write into a shared filter object (filter_feature.options / .domain /
+         .compute_frameworks) is in the heap model; the caller's filter objects after each call are part of the Coq replay
+         (co_filters), and the returned ROWS are compared with the same call on fresh equal objects.
 """
 from __future__ import annotations
 
@@ -41,7 +49,7 @@ from harness import daggen
 from harness.universe import export_plan, table_rows, kf_tfs_partial_requirement, kf_framework_roundtrip, kf_tfs_missing
 from harness.orch import GateListener, cq_plan, install, uuid_to_sid, REC, run_observed
 from harness.c07_lib import (Uni7, Renamer, dump, diff_paths, cq_api, cq_cols, cq_opts, cq_link, cq_flt, cq_fobj, cq_oobj,
-                             cq_coll, CFW_IDS, DT_IDS, JT_IDS)
+                             cq_coll, cq_onat, CFW_IDS, DT_IDS, JT_IDS, DOM_IDS)
 from harness import mp_obs
 
 LEVEL = "proof"
@@ -680,6 +688,122 @@ def gen_args_case(rng: random.Random) -> Dict[str, Any]:
     return {"spec": spec, "options": options, "features": feats, "links_set": links_set, "filters": filters, "calls": calls}
 
 
+# ---- family B-dom: the argument objects WITH DOMAINS ------------------------------------------------------------------
+DOM_FEATS = [("v", "sales"), ("v", "sales"), ("v", "finance"), ("v", "finance"), ("p", "sales"), ("p", None), ("q", "finance"),
+             ("q", None), ("k", "sales"), ("k", "finance"), ("k", "default_domain"), ("w", None), ("w", "default_domain"),
+             ("x", None), ("y", None), ("x", "geo"), ("t1", "sales"), ("t2", None), ("t3", None)]
+DOM_FEATS_ODD = [("v", None), ("t1", None), ("p", "finance"), ("k", None), ("w", "sales")]     # ambiguous / no group
+DOM_OF_NAME = {"p": "sales", "q": "finance", "w": "default_domain", "x": "geo", "y": "geo", "t1": "sales", "t2": "geo", "t3": "finance"}
+
+
+def gen_dom_case(rng: random.Random) -> Dict[str, Any]:
+    """Universe with DOMAINS: two roots providing the same columns in the domains sales / finance, a pandas root in the default
+    domain, a root whose group has a domain (geo) while its features are requested without one, derived groups whose input
+    features inherit the requested feature's domain / carry an explicit domain.  Every table has 4 rows with values on both
+    sides of the filter bound, so "filter applied or not" shows in the rows.  ONE GlobalFilter (1-2 filters; filter features
+    without / with own domain, compute framework, options) is re-used by 3-6 calls whose requested features belong to
+    different domains."""
+    def col(lo: int, hi: int) -> List[int]:
+        return sorted(rng.sample(range(lo, hi), 4))
+    S = {"name": "S", "kind": "root", "cfw": "PyArrowTable", "domain": "sales", "cols": {"v": col(0, 40), "p": col(0, 40), "k": [1, 2, 3, 4]}}
+    F = {"name": "F", "kind": "root", "cfw": "PyArrowTable", "domain": "finance", "cols": {"v": col(0, 40), "q": col(0, 40), "k": [1, 2, 3, 4]}}
+    W = {"name": "W", "kind": "root", "cfw": "PandasDataFrame", "cols": {"w": col(0, 40), "k": [1, 2, 3, 4]}}
+    G = {"name": "G", "kind": "root", "cfw": "PyArrowTable", "domain": "geo", "cols": {"x": col(0, 40), "y": col(0, 40)}}
+    DS = {"name": "DS", "kind": "derived", "cfw": "PyArrowTable", "domain": "sales",
+          "features": {"t1": {"inputs": ["v", "p"], "c0": 0, "coefs": [1, 1]}}}
+    DX = {"name": "DX", "kind": "derived", "cfw": "PyArrowTable",
+          "features": {"t2": {"inputs": ["x", "y"], "c0": 0, "coefs": [1, 2]},
+                       "t3": {"inputs": ["v"], "c0": 1, "coefs": [1], "input_dom": {"v": "finance"}}}}
+    spec = {"groups": [S, F, W, G, DS, DX], "request": []}
+    n_opt = rng.randrange(1, 4)
+    options = []
+    for i in range(n_opt):
+        grp: Dict[str, Any] = {}
+        if i and rng.random() < 0.6:
+            grp["x"] = rng.choice([1, 2])
+        if rng.random() < 0.08:
+            grp["y"] = "u"
+        options.append({"group": grp, "context": {"cx": 5} if rng.random() < 0.1 else {}})
+    feats = []
+    for _ in range(rng.randrange(5, 10)):
+        name, dom = rng.choice(DOM_FEATS_ODD) if rng.random() < 0.08 else rng.choice(DOM_FEATS)
+        cfw = rng.choice(["PyArrowTable", "PandasDataFrame"]) if rng.random() < 0.08 else None
+        feats.append({"name": name, "opt": rng.randrange(n_opt), "dtype": None, "link": None, "dom": dom, "cfw": cfw})
+    filters = []
+    cols_by = {g["name"]: g["cols"] for g in (S, F, W, G)}
+    for _ in range(rng.choice([1, 1, 1, 2])):
+        name = rng.choice(["v", "v", "v", "k", "k", "p", "x", "w", "q"])
+        vals = sorted(v for g in cols_by.values() if name in g for v in g[name])
+        r = rng.random()
+        fdom = None if r < 0.65 else rng.choice(["sales", "finance"]) if r < 0.9 else rng.choice(["geo", "default_domain"])
+        if fdom is None and rng.random() < 0.15 and name in DOM_OF_NAME:
+            fdom = DOM_OF_NAME[name]
+        fcfw = rng.choice(["PyArrowTable", "PandasDataFrame"]) if rng.random() < 0.12 else None
+        filters.append({"name": name, "type": rng.choice(["min", "max"]), "param": {"value": rng.choice(vals[2:-2] or vals)},
+                        "opts": ({"x": 1} if (rng.random() < 0.08 and not filters) else {}), "dom": fdom, "cfw": fcfw})
+    all_copy = rng.random() < 0.8
+    calls = []
+    for _ in range(rng.randrange(3, 7)):
+        idx = list(range(len(feats)))
+        rng.shuffle(idx)
+        chosen: List[int] = []
+        want = rng.choice([1, 1, 2, 2, 3])
+        for i in idx:
+            f = feats[i]
+            key = (f["name"], json.dumps(options[f["opt"]]["group"], sort_keys=True))
+            clash = False
+            for c in chosen:
+                g = feats[c]
+                if key == (g["name"], json.dumps(options[g["opt"]]["group"], sort_keys=True)) and \
+                        (f["dom"] is None or g["dom"] is None or f["dom"] == g["dom"]):
+                    clash = True       # Features([...]) compares them (Feature.__eq__ / Domain.__eq__ with None): outside the model
+            if {f["name"]} | {feats[c]["name"] for c in chosen} >= {"t2", "t3"}:
+                clash = True           # one step of DX fed by two roots: needs a Link (join planning is outside the model)
+            if clash:
+                continue
+            chosen.append(i)
+            if len(chosen) >= want:
+                break
+        calls.append({"feats": chosen, "copy": True if all_copy else rng.random() < 0.5, "strict": False, "api": 0, "links": False,
+                      "filter": rng.random() < 0.92, "kind": "run_all" if rng.random() < 0.7 else "prepare"})
+    return {"spec": spec, "options": options, "features": feats, "links_set": None, "filters": filters, "calls": calls, "family": "dom"}
+
+
+def dom_witness_cases() -> List[Dict[str, Any]]:
+    """Fixed sequences run first in family B-dom: the domain-less filter shared across sales -> finance -> default domain ->
+    geo; both domains in one call; filter features with own domain / framework."""
+    base = gen_dom_case(random.Random(12345))
+    spec = json.loads(json.dumps(base["spec"]))
+    spec["groups"][0]["cols"].update(v=[10, 20, 30, 40], p=[1, 12, 23, 34])
+    spec["groups"][1]["cols"].update(v=[11, 21, 31, 41], q=[2, 13, 24, 35])
+    spec["groups"][2]["cols"].update(w=[5, 15, 25, 35])
+    spec["groups"][3]["cols"].update(x=[3, 13, 23, 33], y=[4, 14, 24, 34])
+    opts = [{"group": {}, "context": {}}, {"group": {"x": 1}, "context": {}}]
+
+    def feat(name: str, dom: Optional[str], opt: int = 0, cfw: Optional[str] = None) -> Dict[str, Any]:
+        return {"name": name, "opt": opt, "dtype": None, "link": None, "dom": dom, "cfw": cfw}
+
+    def flt(name: str, value: int, dom: Optional[str] = None, cfw: Optional[str] = None, typ: str = "min") -> Dict[str, Any]:
+        return {"name": name, "type": typ, "param": {"value": value}, "opts": {}, "dom": dom, "cfw": cfw}
+
+    def call(feats: List[int], kind: str = "run_all", copy_: bool = True) -> Dict[str, Any]:
+        return {"feats": feats, "copy": copy_, "strict": False, "api": 0, "links": False, "filter": True, "kind": kind}
+    F6 = [feat("v", "sales"), feat("v", "finance"), feat("k", "default_domain"), feat("x", None), feat("t1", "sales"),
+          feat("w", None), feat("q", None, 1), feat("t3", None)]
+    return [
+        {"spec": spec, "options": opts, "features": F6, "links_set": None, "filters": [flt("v", 20)], "family": "dom",
+         "calls": [call([0]), call([1]), call([2]), call([3]), call([1, 0]), call([4], "prepare"), call([7])]},
+        {"spec": spec, "options": opts, "features": F6, "links_set": None, "filters": [flt("k", 2)], "family": "dom",
+         "calls": [call([5]), call([0]), call([1, 6]), call([2], "prepare"), call([0, 5])]},
+        {"spec": spec, "options": opts, "features": F6, "links_set": None, "filters": [flt("v", 30, dom="sales", typ="max")], "family": "dom",
+         "calls": [call([1]), call([0]), call([4]), call([1, 0])]},
+        {"spec": spec, "options": opts, "features": F6, "links_set": None, "filters": [flt("k", 3, cfw="PyArrowTable", typ="max")], "family": "dom",
+         "calls": [call([2]), call([0], copy_=False), call([1]), call([0], copy_=False)]},
+        {"spec": spec, "options": opts, "features": F6, "links_set": None, "filters": [flt("x", 13, dom="sales")], "family": "dom",
+         "calls": [call([3]), call([0]), call([3])]},
+    ]
+
+
 def witness_cases() -> List[Dict[str, Any]]:
     """The witnesses of the two repaired findings (C07-filter-collection-accumulates, C07-links-set-grows): regression
     cases, run first on every check."""
@@ -721,6 +845,9 @@ class Pool:
         from mloda.user import Feature, Options, Link, JoinSpec, GlobalFilter
         from mloda.core.abstract_plugins.components.link import JoinType
         from mloda.core.abstract_plugins.components.data_types import DataType
+        from harness.universe import cfw_class
+        for n in CFW_IDS:         # Feature(compute_framework="...") resolves the name among the LOADED framework classes
+            cfw_class(n)
         names = [g["name"] for g in case["spec"]["groups"]]
 
         def mk_link(l: Dict[str, Any]) -> Any:
@@ -730,13 +857,18 @@ class Pool:
         self.options = [Options(group=dict(o["group"]), context=dict(o["context"])) for o in case["options"]]
         self.features = [Feature(f["name"], options=self.options[f["opt"]],
                                  data_type=DataType[f["dtype"]] if f["dtype"] else None,
-                                 link=self.link_objs[f["link"]] if f["link"] is not None else None) for f in case["features"]]
+                                 link=self.link_objs[f["link"]] if f["link"] is not None else None,
+                                 domain=f.get("dom"), compute_framework=f.get("cfw")) for f in case["features"]]
         self.links_set = None if case["links_set"] is None else {mk_link(LINK_POOL[i]) for i in case["links_set"]}
         self.filter = None
         if case["filters"]:
             self.filter = GlobalFilter()
             for f in case["filters"]:
-                self.filter.add_filter(Feature(f["name"], options=dict(f["opts"])) if f["opts"] else f["name"], f["type"], dict(f["param"]))
+                if f["opts"] or f.get("dom") or f.get("cfw"):       # a filter feature of the caller's own
+                    ff: Any = Feature(f["name"], options=dict(f["opts"]), domain=f.get("dom"), compute_framework=f.get("cfw"))
+                else:
+                    ff = f["name"]                                  # the normal add_filter("col", ...)
+                self.filter.add_filter(ff, f["type"], dict(f["param"]))
         self.api = uni.api_default()
         self.api2 = None
         if self.api is not None:
@@ -763,7 +895,9 @@ def flt_val(sf: Any) -> Dict[str, Any]:
     if ff.options.context:
         raise ValueError("filter feature with context options: outside the model")
     return {"name": str(ff.name), "opts": {k: val_of(v) for k, v in ff.options.group.items()}, "type": sf.filter_type,
-            "param": {k: int(v) for k, v in sf.parameter._raw}}
+            "param": {k: int(v) for k, v in sf.parameter._raw},
+            "dom": None if ff.domain is None else DOM_IDS[ff.domain.name],
+            "cfw": None if ff.compute_frameworks is None else sorted(CFW_IDS[c.__name__] for c in ff.compute_frameworks)}
 
 
 def model_world(uni: Uni7, pool: Pool, ren: Renamer) -> Dict[str, Any]:
@@ -773,7 +907,8 @@ def model_world(uni: Uni7, pool: Pool, ren: Renamer) -> Dict[str, Any]:
         F.append({"name": str(f.name), "opt": next(i for i, o in enumerate(pool.options) if o is f.options),
                   "cfw": None if f.compute_frameworks is None else sorted(CFW_IDS[c.__name__] for c in f.compute_frameworks),
                   "flag": bool(f.initial_requested_data), "dtype": DT_IDS[f.data_type.name] if f.data_type else None,
-                  "uuid": int(ren(f.uuid).split("#")[1]), "link": link_val(uni, f.link) if f.link is not None else None})
+                  "uuid": int(ren(f.uuid).split("#")[1]), "link": link_val(uni, f.link) if f.link is not None else None,
+                  "dom": None if f.domain is None else DOM_IDS[f.domain.name]})
     Oo = [{"group": {k: val_of(v) for k, v in o.group.items()}, "context": {k: val_of(v) for k, v in o.context.items()}}
           for o in pool.options]
     links = [] if pool.links_set is None else sorted((link_val(uni, l) for l in pool.links_set), key=json.dumps)
@@ -793,6 +928,10 @@ def classify_error(e: Exception) -> str:
         return "EAddConflict"
     if "No feature groups found" in m:
         return "ENoGroup"
+    if "Multiple feature groups found" in m:
+        return "EMulti"
+    if "Cannot compare Domain with" in m:
+        return "EDomCmp"
     if "different filters for different features" in m:
         return "ERejected"
     if "different defined joins" in m or "different join types" in m or "multiple right joins" in m:
@@ -903,7 +1042,7 @@ def gen_args_case_modes(rng: random.Random) -> Dict[str, Any]:
     Link / GlobalFilter / api_data objects are handed to SYNC, THREADING and MULTIPROCESSING runs in turn (outside SYNC the
     api_data and the function extenders are pickled into a manager process; in MULTIPROCESSING every step -- features, options,
     filters -- is pickled into a worker process)."""
-    case = gen_args_case(rng)
+    case = gen_dom_case(rng) if rng.random() < 0.3 else gen_args_case(rng)     # 30 %: the universe with domains
     for c in case["calls"]:
         if rng.random() < 0.8:
             c["kind"] = "run_all"
@@ -991,8 +1130,11 @@ def run_args_case(case: Dict[str, Any]) -> Dict[str, Any]:
         c["same_run"] = bool(same_run)
         c["all_copy_before"] = all_copy
         if world["links"] != entry["links"] or world["coll"] != entry["coll"] or world["filters"] != entry["filters"]:
+            fdiff = ""
+            if world["filters"] != entry["filters"]:
+                fdiff = f", filter objects {entry['filters']} -> {world['filters']}"
             rec["problems"].append(f"call {ci} {call}: the caller's links set / GlobalFilter was written: links {entry['links']} -> "
-                                   f"{world['links']}, collection keys {[k for k, _ in entry['coll']]} -> {[k for k, _ in world['coll']]}")
+                                   f"{world['links']}, collection keys {[k for k, _ in entry['coll']]} -> {[k for k, _ in world['coll']]}{fdiff}")
         if all_copy and not (same_plan and same_run):
             # is the request itself deterministic?  (fresh equal objects, same call, several times)
             outs = set()
@@ -1004,9 +1146,15 @@ def run_args_case(case: Dict[str, Any]) -> Dict[str, Any]:
                 c["nondet"] = True
                 rec["nondet"] = True
         if all_copy and not (same_plan and same_run) and not c.get("nondet"):
+            detail = ""
+            if not same_plan and got["plan"] is not None and fgot["plan"] is not None:
+                detail += (f"; filters attached per step: shared {[(g, fs) for g, _o, fs in got['plan']]} / "
+                           f"fresh {[(g, fs) for g, _o, fs in fgot['plan']]}")
+            if not same_run and got["run"] and fgot["run"] and got["run"][0] == "ok" and fgot["run"][0] == "ok":
+                detail += f"; rows returned: shared {got['run'][1]} / fresh {fgot['run'][1]}"
             rec["problems"].append(
                 f"call {ci} {call}: outcome with the shared objects ({got['err'] or 'planned'}, run {got['run'] and got['run'][0]}) differs "
-                f"from the outcome with fresh equal objects ({fgot['err'] or 'planned'}, run {fgot['run'] and fgot['run'][0]})")
+                f"from the outcome with fresh equal objects ({fgot['err'] or 'planned'}, run {fgot['run'] and fgot['run'][0]}){detail[:900]}")
         # -- earlier sessions: their frozen plan must not change when the shared filter object is used again
         for sj, (s_old, snap_old) in enumerate(sessions):
             now = dump(s_old.engine.execution_planner)
@@ -1035,9 +1183,12 @@ def cq_universe(case: Dict[str, Any]) -> str:
                 d = g["features"][n]
                 for i in d["inputs"]:
                     li = (d.get("input_link") or {}).get(i)
-                    ins.append(f"({cq_str(i)}, {'None' if li is None else '(Some ' + cq_link(LINK_POOL[li]) + ')'})")
+                    dm = (d.get("input_dom") or {}).get(i)
+                    ins.append(f"{{| i_name := {cq_str(i)}; i_link := {'None' if li is None else '(Some ' + cq_link(LINK_POOL[li]) + ')'}; "
+                               f"i_dom := {cq_onat(None if dm is None else DOM_IDS[dm])} |}}")
             ents.append(f"({cq_str(n)}, {{| gi_id := {cq_nat(gi)}; gi_cfw := [{cq_nat(CFW_IDS[g['cfw']])}]; "
-                        f"gi_api := {cq_bool(g['kind'] == 'api')}; gi_dtype := {dt}; gi_inputs := {cq_list(ins)} |}})")
+                        f"gi_api := {cq_bool(g['kind'] == 'api')}; gi_dtype := {dt}; gi_inputs := {cq_list(ins)}; "
+                        f"gi_dom := {cq_nat(DOM_IDS[g.get('domain') or 'default_domain'])} |}})")
     return cq_list(ents)
 
 
@@ -1054,7 +1205,7 @@ def cq_call(case: Dict[str, Any], call: Dict[str, Any]) -> str:
         api = f"(Some {cq_cols([(g['key'], list(g['cols']) + (['z'] if call['api'] == 2 else []))])})"
     return (f"{{| c_feats := {cq_list(cq_nat(i) for i in call['feats'])}; c_copy := {cq_bool(call['copy'])}; "
             f"c_strict := {cq_bool(call['strict'])}; c_api := {api}; c_links := {cq_bool(call['links'])}; "
-            f"c_filter := {cq_bool(call['filter'])} |}}")
+            f"c_filter := {cq_bool(call['filter'])}; c_hz := 100%nat |}}")
 
 
 def cq_cobs(case: Dict[str, Any], c: Dict[str, Any]) -> str:
@@ -1067,7 +1218,8 @@ def cq_cobs(case: Dict[str, Any], c: Dict[str, Any]) -> str:
         out = "OOther"
     return (f"{{| co_call := {cq_call(case, c['call'])}; co_F := {cq_list(cq_fobj(f) for f in w['F'])}; "
             f"co_O := {cq_list(cq_oobj(o) for o in w['O'])}; co_links := {cq_list(cq_link(l) for l in w['links'])}; "
-            f"co_coll := {cq_coll(w['coll'])}; co_out := {out}; co_same := {cq_bool(c['same'])} |}}")
+            f"co_coll := {cq_coll(w['coll'])}; co_out := {out}; co_same := {cq_bool(c['same'])}; "
+            f"co_filters := {cq_list(cq_flt(f) for f in w['filters'])} |}}")
 
 
 def cq_args_case(rec: Dict[str, Any]) -> str:
@@ -1075,27 +1227,80 @@ def cq_args_case(rec: Dict[str, Any]) -> str:
     return f"({cq_universe(case)}, {cq_world(rec['w0'])}, {cq_list(cq_cobs(case, c) for c in rec['calls'])})"
 
 
-def part_b(rep: vlib.Reporter, tier: str, rng: random.Random, modes: bool = False) -> bool:
-    """modes = True: family B-modes -- the run_all calls of a sequence draw their execution mode (gen_args_case_modes)."""
+def call_domains(case: Dict[str, Any], call: Dict[str, Any]) -> List[str]:
+    """The domains a call's requested features belong to (own domain, else the domain of the group providing the name)."""
+    out = set()
+    for i in call["feats"]:
+        f = case["features"][i]
+        d = f.get("dom") or DOM_OF_NAME.get(f["name"])
+        if d:
+            out.add(d)
+    return sorted(out)
+
+
+def dom_stats(dist: Dict[str, Any], rec: Dict[str, Any]) -> None:
+    """Evidence counters of the sequences with domains."""
+    case = rec["case"]
+    d = dist.setdefault("domains", {"sequences": 0, "calls_with_domains": 0, "calls_over_two_or_more_domains": 0,
+                                    "sequences_reusing_one_filter_across_domains": 0, "sequences_with_filter_in_3_or_more_calls": 0,
+                                    "filter_feature": {"without_domain": 0, "with_own_domain": 0, "with_compute_framework": 0, "with_options": 0},
+                                    "features_with_compute_framework": 0, "features_with_domain": 0,
+                                    "filtered_calls": {"filter_attached_to_a_step": 0, "no_filter_attached": 0, "planning_failed": 0,
+                                                       "run_returned_fewer_rows_than_the_source": 0, "run_returned_all_rows": 0},
+                                    "domain_sets_of_filtered_calls": {}})
+    d["sequences"] += 1
+    for f in case["filters"]:
+        d["filter_feature"]["with_own_domain" if f.get("dom") else "without_domain"] += 1
+        d["filter_feature"]["with_compute_framework"] += int(bool(f.get("cfw")))
+        d["filter_feature"]["with_options"] += int(bool(f.get("opts")))
+    d["features_with_compute_framework"] += sum(1 for f in case["features"] if f.get("cfw"))
+    d["features_with_domain"] += sum(1 for f in case["features"] if f.get("dom"))
+    seen_doms = []
+    for c in rec["calls"]:
+        doms = call_domains(case, c["call"])
+        d["calls_with_domains"] += int(bool(doms))
+        d["calls_over_two_or_more_domains"] += int(len(doms) >= 2)
+        if not c["call"]["filter"]:
+            continue
+        seen_doms.append(tuple(doms))
+        k = "+".join(doms) or "none"
+        d["domain_sets_of_filtered_calls"][k] = d["domain_sets_of_filtered_calls"].get(k, 0) + 1
+        fc = d["filtered_calls"]
+        if c["plan"] is None:
+            fc["planning_failed"] += 1
+            continue
+        fc["filter_attached_to_a_step" if any(fs for _g, _o, fs in c["plan"]) else "no_filter_attached"] += 1
+        if c["run"] and c["run"][0] == "ok":
+            short = any(len(json.loads(t)) < 4 for t in c["run"][1])
+            fc["run_returned_fewer_rows_than_the_source" if short else "run_returned_all_rows"] += 1
+    d["sequences_reusing_one_filter_across_domains"] += int(len({x for x in seen_doms if x}) >= 2)
+    d["sequences_with_filter_in_3_or_more_calls"] += int(len(seen_doms) >= 3)
+
+
+def part_b(rep: vlib.Reporter, tier: str, rng: random.Random, modes: bool = False, dom: bool = False) -> bool:
+    """modes = True: family B-modes -- the run_all calls of a sequence draw their execution mode (gen_args_case_modes).
+    dom = True: family B-dom -- the universe with domains (gen_dom_case), one GlobalFilter re-used across domains."""
     big = tier == "thorough"
-    n = (300 if big else 20) if modes else (1000 if big else 70)
+    n = (300 if big else 20) if modes else (1500 if big else 150) if dom else (1000 if big else 70)
     t0 = time.time()
     recs = []
     dist: Dict[str, Any] = {"sequences": 0, "calls": 0, "copy_false_calls": 0, "outcomes": {}, "shared_differs_from_fresh": 0, "shared_differs_from_fresh_after_copy_only": 0,
                             "api_universes": 0, "with_filter": 0, "with_links": 0,
                             "objects_mutated_calls": 0}
     found = False
-    wit = [] if modes else witness_cases()
+    wit = [] if modes else dom_witness_cases() if dom else witness_cases()
     per_mode: Dict[str, Dict[str, Any]] = {m: {"run_all_calls": 0, "requested": 0, "made_in_sync_instead": {}, "run_outcomes": {},
                                                "with_filter": 0, "with_links": 0, "with_api_data": 0, "copy_false": 0,
                                                "shared_differs_from_fresh": 0, "objects_mutated_calls": 0} for m in MODES3}
     for k in range(n + len(wit)):
-        case = wit[k] if k < len(wit) else (gen_args_case_modes(rng) if modes else gen_args_case(rng))
+        case = wit[k] if k < len(wit) else (gen_args_case_modes(rng) if modes else gen_dom_case(rng) if dom else gen_args_case(rng))
         if len(case["calls"]) < 2:
             continue
         rec = run_args_case(case)
         recs.append(rec)
         dist["sequences"] += 1
+        if case.get("family") == "dom":
+            dom_stats(dist, rec)
         dist["api_universes"] += int(case["spec"]["groups"][0]["kind"] == "api")
         for c in rec["calls"]:
             dist["calls"] += 1
@@ -1137,6 +1342,9 @@ def part_b(rep: vlib.Reporter, tier: str, rng: random.Random, modes: bool = Fals
         if modes:
             if len({c["call"].get("mode", "SYNC") for c in rec["calls"] if c["call"]["kind"] == "run_all"}) >= 2:
                 rep.nontrivial(("B-modes", case))
+        elif dom:
+            if len({tuple(call_domains(case, c["call"])) for c in rec["calls"] if c["call"]["filter"]} - {()}) >= 2:
+                rep.nontrivial(("B-dom", case))
         elif (any(c["call"]["filter"] for c in rec["calls"][:-1]) and rec["calls"][-1]["call"]["filter"]) or \
                 any(f["link"] is not None for f in case["features"]) or any(not c["call"]["copy"] for c in rec["calls"]):
             rep.nontrivial(("B", case))
@@ -1149,7 +1357,7 @@ def part_b(rep: vlib.Reporter, tier: str, rng: random.Random, modes: bool = Fals
     dist["sequences_with_nondeterministic_request"] = sum(1 for r in recs if r.get("nondet"))
     recs = [r for r in recs if not r.get("nondet")]
     terms = [cq_args_case(r) for r in recs]
-    bad, info = vlib.run_cases("C07", "args_modes" if modes else "args", REQ_B, "chk_args", terms,
+    bad, info = vlib.run_cases("C07", "args_modes" if modes else "args_dom" if dom else "args", REQ_B, "chk_args", terms,
                                case_type="universe * world * list cobs", shard=60) if terms else ([], {})
     for i in bad[:6]:
         r = recs[i]
@@ -1177,12 +1385,16 @@ def part_b(rep: vlib.Reporter, tier: str, rng: random.Random, modes: bool = Fals
         dist["wall_s"] = round(time.time() - t0, 1)
         rep.add("argument_sequences_modes", dist)
         rep.add("args_model_modes", {**info, "disagreements": len(bad)})
+    elif dom:
+        dist["wall_s"] = round(time.time() - t0, 1)
+        rep.add("argument_sequences_domains", dist)
+        rep.add("args_model_domains", {**info, "disagreements": len(bad)})
     else:
         rep.add("argument_sequences", dist)
         rep.add("args_model", {**info, "disagreements": len(bad)})
     if recs:
         r0 = recs[len(wit)] if len(recs) > len(wit) else recs[0]
-        rep.sample({"part": "B-modes" if modes else "B", "features": r0["case"]["features"], "filters": r0["case"]["filters"], "links_set": r0["case"]["links_set"],
+        rep.sample({"part": "B-modes" if modes else "B-dom" if dom else "B", "features": r0["case"]["features"], "filters": r0["case"]["filters"], "links_set": r0["case"]["links_set"],
                     "calls": r0["case"]["calls"], "outcomes": [(c["err"], c["run"] and c["run"][0], c["same"], c["same_run"]) for c in r0["calls"]]})
     return found
 
@@ -1202,11 +1414,12 @@ class NestUniverse:
     """Root group (column "s", any compute framework) and two dependent groups whose input features are the Feature objects
     given in their options: "sc" = factor * <input>, "sc2" = factor2 * <input>."""
 
-    def __init__(self) -> None:
+    def __init__(self, domain: Optional[str] = None) -> None:
         from mloda.provider import FeatureGroup, DataCreator
         from harness.universe import native_table, column_values, with_columns
         _nest_counter[0] += 1
         tag = f"N{_nest_counter[0]}"
+        self.domain = domain
 
         def root_input_data(cls: Any) -> Any:
             return DataCreator({"s"})
@@ -1233,6 +1446,12 @@ class NestUniverse:
                                                             "input_features": input_features, "calculate_feature": classmethod(calc)})
         self.sc = mk_dep("sc", "factor")
         self.sc2 = mk_dep("sc2", "factor2")
+        if domain:
+            # all three groups live in one domain: a requested feature WITH that domain hands it down to its input features
+            # (Features.build_feature_collection writes feature.domain of the nested Feature objects)
+            from mloda.user import Domain
+            for c in (self.root, self.sc, self.sc2):
+                c.get_domain = classmethod(lambda k, _d=domain: Domain(_d))  # type: ignore[attr-defined]
 
     def collector(self) -> Any:
         from mloda.user import PluginCollector
@@ -1275,7 +1494,11 @@ def gen_nest_case(rng: random.Random, deep_frozenset: bool = False) -> Dict[str,
         # two levels of frozenset-nested features take 20-40 s per call in mloda itself (deepcopy of a frozenset hashes
         # its Feature elements, Feature.__hash__ deep-copies child_options, ... until RecursionError): thorough tier only
         container = rng.choice(["single", "list"])
-    return {"levels": levels, "container": container,
+    domain = rng.choice([None, None, "nest_domain"])
+    if domain:
+        for c in calls:
+            c["dom"] = rng.random() < 0.7          # this call's requested feature carries the domain
+    return {"levels": levels, "container": container, "domain": domain,
             "in_where": rng.choice(["context", "context", "group"]),
             "uncopyable": rng.choice(["sqlite", "lock", "generator", "sqlite", None]),
             "unc_where": rng.choice(["same", "same", "same", "other"]), "calls": calls}
@@ -1292,7 +1515,7 @@ class NestPool:
             self.mid = Feature("sc", self._opts({"factor": 4}, self.src))
             inner = self.mid
         self.inner = inner
-        self.requested = self.make_requested(2)
+        self.requested = self.make_requested(2, bool(case.get("domain")) and bool(case["calls"][0].get("dom")))
 
     def _container(self, f: Any) -> Any:
         c = self.case["container"]
@@ -1313,11 +1536,12 @@ class NestPool:
             _ = oth
         return Options(group=g, context=c)
 
-    def make_requested(self, factor: int) -> Any:
+    def make_requested(self, factor: int, with_domain: bool = False) -> Any:
         from mloda.user import Feature
+        dom = self.case.get("domain") if with_domain else None
         if self.case["levels"] == 2:
-            return Feature("sc2", self._opts({"factor2": factor}, self.inner))
-        return Feature("sc", self._opts({"factor": factor}, self.inner))
+            return Feature("sc2", self._opts({"factor2": factor}, self.inner), domain=dom)
+        return Feature("sc", self._opts({"factor": factor}, self.inner), domain=dom)
 
     def objects(self) -> Dict[str, Any]:
         return {"requested": self.requested, "mid": self.mid, "src": self.src}
@@ -1340,13 +1564,13 @@ def nest_call(nu: NestUniverse, feats: List[Any], call: Dict[str, Any]) -> Tuple
 
 
 def run_nest_case(case: Dict[str, Any]) -> Dict[str, Any]:
-    nu = NestUniverse()
+    nu = NestUniverse(case.get("domain"))
     pool = NestPool(case)
     ren = Renamer()
     rec: Dict[str, Any] = {"case": case, "problems": [], "outcomes": []}
     for ci, call in enumerate(case["calls"]):
         # the request of this call: the shared requested feature, or a new dependent feature around the SAME nested objects
-        feats = [pool.requested] if call["reuse"] == "all" else [pool.make_requested(call["factor"])]
+        feats = [pool.requested] if call["reuse"] == "all" else [pool.make_requested(call["factor"], bool(call.get("dom")))]
         watched = dict(pool.objects(), this_request=feats[0])
         before = {k: dump(v, ren) for k, v in watched.items()}
         got = nest_call(nu, feats, call)
@@ -1355,7 +1579,7 @@ def run_nest_case(case: Dict[str, Any]) -> Dict[str, Any]:
             rec["problems"].append(f"call {ci} {call}: copy_features=True but the caller's (nested) Feature objects were modified: "
                                    f"{diff_paths(before, after)[:4]}")
         fpool = NestPool(case)
-        ffeats = [fpool.requested] if (call["reuse"] == "all" and call["factor"] == 2) else [fpool.make_requested(call["factor"])]
+        ffeats = [fpool.requested] if (call["reuse"] == "all" and call["factor"] == 2) else [fpool.make_requested(call["factor"], bool(call.get("dom")))]
         fgot = nest_call(nu, ffeats, call)
         rec["outcomes"].append((got[0], fgot[0]))
         if got != fgot:
@@ -1367,7 +1591,8 @@ def run_nest_case(case: Dict[str, Any]) -> Dict[str, Any]:
 def part_c(rep: vlib.Reporter, tier: str, rng: random.Random) -> bool:
     n = 400 if tier == "thorough" else 48
     dist: Dict[str, Any] = {"sequences": 0, "calls": 0, "levels": {}, "container": {}, "uncopyable": {}, "second_call": {},
-                            "outcomes": {}, "uncopyable_next_to_nested_features": 0}
+                            "outcomes": {}, "uncopyable_next_to_nested_features": 0, "sequences_in_a_domain": 0,
+                            "calls_whose_requested_feature_carries_the_domain": 0}
     found = False
     # fixed cases first: every container x {sqlite, lock} x {other framework, other group option}, 1 and 2 levels
     fixed = []
@@ -1389,6 +1614,8 @@ def part_c(rep: vlib.Reporter, tier: str, rng: random.Random) -> bool:
         for key in ("levels", "container", "uncopyable"):
             dist[key][str(case[key])] = dist[key].get(str(case[key]), 0) + 1
         dist["uncopyable_next_to_nested_features"] += int(case["uncopyable"] is not None and case["in_where"] == "context")
+        dist["sequences_in_a_domain"] += int(bool(case.get("domain")))
+        dist["calls_whose_requested_feature_carries_the_domain"] += sum(1 for c in case["calls"] if case.get("domain") and c.get("dom"))
         for c in case["calls"][1:]:
             kk = "nested objects below another dependent feature" if c["reuse"] == "nested" else \
                  ("other framework" if c["cfw"] != case["calls"][0]["cfw"] else "same call again")
@@ -1421,6 +1648,11 @@ def run(rep: vlib.Reporter, tier: str, seed: int) -> None:
         "tables with a fresh run_all is established by direct comparison on every generated history, not by proof",
         "THREADING histories are replayed against a canonical fair schedule (every started step completes before the next "
         "loop iteration); the theorem itself quantifies over all schedules",
+        "Model/Args.v with domains: one compute framework per group; SingleFilter.name / uuid and filter_feature.uuid / data_type / "
+        "link / index are not in the heap model (structural snapshot only); which of several exceptions raised inside the "
+        "recursion over sets comes first, and whether the look-up of an equal stored feature meets a domain-less namesake first "
+        "(Domain.__eq__ raises), is set iteration order: compared up to the class {ENoGroup, EMulti, EDomCmp} resp. for some "
+        "value of the order parameter c_hz",
         "Feature objects nested in option values (in_features) and option values that cannot be deep-copied are outside "
         "Model/Args.v: Options.__deepcopy__ is covered by direct observation only (part C: deep snapshot of the nested objects "
         "before/after every call, re-used vs fresh equal objects)",
@@ -1429,6 +1661,7 @@ def run(rep: vlib.Reporter, tier: str, seed: int) -> None:
     found = part_a(rep, tier, random.Random(seed * 7937 + 17), modes=True) or found
     found = part_b(rep, tier, random.Random(seed * 7927 + 11)) or found
     found = part_b(rep, tier, random.Random(seed * 7949 + 19), modes=True) or found
+    found = part_b(rep, tier, random.Random(seed * 7951 + 23), dom=True) or found
     found = part_c(rep, tier, random.Random(seed * 7933 + 13)) or found
     rep.add("rule", "A: PRNG histories on one session; non-trivial = >= 3 operation kinds incl. a failing and a successful one. "
                     "B: PRNG sequences of 2-5 prepare/run_all calls over a shared pool of Feature/Options/Link/GlobalFilter/api_data "
@@ -1439,7 +1672,9 @@ def run(rep: vlib.Reporter, tier: str, seed: int) -> None:
                     "A-modes: histories (<= 6 operations) whose operations draw their mode from {SYNC, THREADING, MULTIPROCESSING} as far as "
                     "the plan admits (conflict_free / conflict_free_x, no api_data-backed root, no transform from a non-Arrow framework); "
                     "non-trivial = >= 2 modes and >= 2 operation kinds in one history. B-modes: the call sequences of B with every run_all "
-                    "drawing its mode; non-trivial = run_all calls in >= 2 modes within one sequence.")
+                    "drawing its mode; non-trivial = run_all calls in >= 2 modes within one sequence. B-dom: PRNG sequences of 3-6 "
+                    "prepare/run_all calls over a universe with domains sharing ONE GlobalFilter; non-trivial = the filter is passed to "
+                    "calls over >= 2 different non-empty domain sets.")
     if not pr.ok and not found:
         rep.finding("proof-broken", "Props/C07.v no longer checks",
                     {"failed_files": pr.failed_files, "forbidden": pr.forbidden, "log_tail": pr.log[-3000:]}, found_input=False)
